@@ -13,12 +13,24 @@ are not serialised by an exclusive lock are all accumulate-class with one operat
 all Gets; conflicting accesses of one origin are accumulate-class (ordered) or separated by a flush; concurrent
 multi-cell accesses are plain accumulates with a commutative operator (so that MPI's element-wise atomicity and the
 specification's whole-access atomicity coincide).
+
+Mutations (single-object rebuilds of the mutated source against a copy of the instrumented build, quick tier):
+  Ma Win::accumulate without its trailing flush(target) (accumulates no longer ordered/complete)          -> caught
+  Mb Win::fence without flush_local_all()                                                                  -> missed (timing-masked:
+     the one-cell transfers complete during the two barriers of the fence; no outcome changes)
+  Md Request::finish_wait applies the accumulate operator to n-1 cells of a multi-cell accumulate         -> caught
+  Fixes: with proposed/fix-C34-lock-unlock.diff + fix-C34-cas-atomic.diff + fix-C34-accumulate-atomic.diff applied the check
+  passes with no known finding (0 of 408 runs outside TLC's sets): the four findings are real and the fixes remove them.
 """
 import json, os
 import vlib, drivers
 import smpi_rt_common as R
 
 LEVEL = "model_checking"
+META = {
+    "text": "TLC explores, for every generated RMA program (66 directed programs where all ranks hammer one window cell with one atomic access or run read-modify-write epochs under an exclusive lock, plus seeded random programs of 2..4 ranks with fence / lock_all / exclusive-lock / mixed epochs), every order of the accesses that the synchronisation allows under the reference semantics MpiRma (accesses atomic inside their epoch, exclusive vs shared locks, accumulate ordering), checks the lock invariants and the action property 'nobody else changes the memory of a window while a rank holds its exclusive lock', and yields the set of possible (final window memories, fetched values). Every real run of the same program under smpirun (several rank placements and simulated delays) must land in that set. model_checking because the oracle is the exhaustively explored specification and the binding is outcome membership of real executions.",
+    "note": "Trusted: TLC; harness/mpi_rma.c printing window contents and fetched values after the closing barrier; the generator's restriction to MPI-defined programs (conflicting concurrent accesses only accumulate-class with one operator, multi-cell concurrent accesses only commutative accumulates). One outcome per run is observed, so schedule-dependent defects are found only when rank placement/delays provoke them (4 genuine defects of smpi_win.cpp found that way, recorded as known findings; the check passes with none on a tree carrying proposed/fix-C34-*.diff).",
+    "technique": 'TLC model checking of MpiRma (all orders allowed by locks/fences, outcome sets) + membership of real smpirun outcomes (mpi_rma driver)'}
 DRIVERS = {"mpi_rma": (["mpi_rma.c"], "c-smpi", [])}
 
 FCODE = {"none": 0, "sum": 1, "prod": 2, "max": 3, "min": 4, "band": 5, "bor": 6, "bxor": 7, "replace": 8, "noop": 9}
@@ -353,13 +365,13 @@ def run(ctx):
     quick = ctx.quick
     drivers.register(DRIVERS)
     drivers.get("mpi_rma")
-    n_prog = 70 if quick else 700
+    n_prog = 50 if quick else 600
     nvar = 3 if quick else 6
     progs = directed_programs()
     n_directed = len(progs)
     seen = {vlib.canon_hash(p) for p in progs}
     while len(progs) < n_prog + n_directed:
-        p = gen_program(ctx.rng, budget=5 if quick else 7)
+        p = gen_program(ctx.rng, budget=4 if quick else 6)
         h = vlib.canon_hash(p)
         if h in seen or n_accesses(p) == 0:
             continue
